@@ -206,6 +206,74 @@ for _c in REGISTRY["C15"]:
         _c.replay_with = None
 
 
+@bounded("C15", "pool_native", native_runs=10)
+def pool_native(vc):
+    """ChainPool.advance(n) on real worker processes against the same chains advanced one after another.  The chains are built
+    exactly as a user builds them (their generators are NOT re-seeded one by one), the sequential twins are one deep copy of the
+    whole list (so generator states, and any state the chains share, are those of the pooled chains at the moment of the call)"""
+    import copy
+    from inference.mcmc import GibbsChain, PcaChain, HamiltonianChain, ChainPool
+    from inference.mcmc.gibbs import MetropolisChain
+    from contracts.common import Posterior, stored_points, quiet
+    seed = vc.int("seed", lo=0, hi=10 ** 6)
+    rng = np.random.default_rng(seed)
+    size = vc.choice("pool_size", [1, 2, 3, 4])
+    n = vc.choice("n", [0, 1, 37, 120])
+    d = vc.int("d", lo=1, hi=3)
+    post = Posterior("gauss", d, rng)
+    post.calls = None
+    post.__class__ = _QuietPosterior
+    chains = []
+    mixed = vc.bool("mixed_classes")
+    kinds = []
+    for k in range(size):
+        kind = ["gibbs", "metropolis", "gibbs", "pca", "hmc"][int(rng.integers(0, 5))] if mixed or k == 0 else kind
+        kinds.append(kind)
+        start = post.mu + 0.3 * rng.normal(size=d)
+        if kind == "gibbs":
+            c = GibbsChain(posterior=post, start=start, widths=np.full(d, 0.5), display_progress=False)
+        elif kind == "metropolis":
+            c = MetropolisChain(posterior=post, start=start, widths=np.full(d, 0.5), display_progress=False)
+        elif kind == "pca":
+            c = PcaChain(posterior=post, start=start, widths=np.full(d, 0.5), display_progress=False)
+        else:
+            c = HamiltonianChain(posterior=post, grad=post.grad, start=start, epsilon=0.2, display_progress=False)
+        chains.append(c)
+    vc.inputs["classes"] = kinds
+    twins = copy.deepcopy(chains)
+    cp = ChainPool(chains)
+    try:
+        quiet(cp.advance, n)
+        out = list(cp.chains)
+    finally:
+        cp.pool.close()
+        cp.pool.join()
+    for t in twins:
+        quiet(t.advance, n)
+    same, counts = len(out) == size, True
+    for a, b in zip(out, twins):
+        Xa, Pa = stored_points(a)
+        Xb, Pb = stored_points(b)
+        counts = counts and Xa.shape[0] == 1 + n and a.chain_length == 1 + n
+        same = same and type(a) is type(b) and Xa.shape == Xb.shape and np.array_equal(Xa, Xb) and np.array_equal(Pa, Pb)
+    vc.ensures("every_pooled_chain_advanced_by_n", bool(counts))
+    vc.ensures("pool_ends_in_the_state_of_sequential_advancement", bool(same))
+    if size > 1 and n >= 37:
+        # (chains started at different points never coincide by chance)
+        X = [stored_points(c)[0][-1] for c in out]
+        vc.ensures("pooled_chains_are_distinct", all(not np.array_equal(X[0], x) for x in X[1:]))
+
+
+from contracts.common import Posterior as _P
+
+
+class _QuietPosterior(_P):
+    """(no evaluation log: the object is pickled to the workers and back)"""
+
+    def __call__(self, x):
+        return self.f(x)
+
+
 @bounded("C15", "run_for_native", native_runs=30)
 def run_for_native(vc):
     """timed run against a scripted clock: each step costs `cost` seconds of fake time"""
